@@ -16,6 +16,14 @@
      code whose runs both end, in the same memory, X, Y, SP untouched — instantiated per law
      (`compiled_if_else_swap`, `compiled_compare_swap_if/_while`, `compiled_for_while`,
      `compiled_while_dowhile`)
+   * stages 6-9: `wide_opassign_same_code` / `wide_opassign_law` (s ∘= w and s = s ∘ w on a 16-bit variable are the
+     same code and the same meaning), `linear_comm_same_code` / `linear_comm_law` (a ∘ (e) and (e) ∘ a for a
+     commutative operator: the same code), `wide_incr_law` (s++ and s += 1 on a 16-bit variable: different code, the
+     same 16-bit value)
+   * stage 10 (expression trees, both spellings accepted by the generator — different code: different spills):
+     `tree_comm_law` ((l) ∘ (r) ≡ (r) ∘ (l) for a commutative operator), `tree_assoc_law` (((x) ∘ (y)) ∘ (z) ≡
+     (x) ∘ ((y) ∘ (z)) for +, &, |, ^), `tree_equal_value_law` (any two accepted trees with the same plain value):
+     the same X, Y and memory outside the compiler's own cells (`cctmp`, stack page)
   Not proved: the rewrites that need arrays, switch or calls (switch vs if-chain, register vs constant
   index, call vs body in place); they are decided by metamorphic co-execution in the check (partial).
 -/
@@ -88,6 +96,7 @@ theorem sem_mono_both (L : Layout) : ∀ (f : Nat),
       cases st with
       | flat s => simpa [sem] using h
       | skip => simpa [sem] using h
+      | forget => simpa [sem] using h
       | brk => simpa [sem] using h
       | cont => simpa [sem] using h
       | ifBrk c => simpa [sem] using h
@@ -620,6 +629,94 @@ theorem compiled_compare_swap_while (L : Layout) (c : Cond) (b : SStmt)
   compiled_equiv_struct L _ _ h₁ h₂ c₁ c₂ s
     (fun o => ⟨fun ⟨f, h⟩ => ⟨f, by rw [← (compare_swap_law L c f (srcOf s)).2.2.1]; exact h⟩,
                 fun ⟨f, h⟩ => ⟨f, by rw [(compare_swap_law L c f (srcOf s)).2.2.1]; exact h⟩⟩) o hterm
+
+/-! ## stages 6-9: laws of the 16-bit statements and of linear expressions -/
+
+/-- `s ∘= w` and `s = s ∘ w` on a 16-bit variable are the same code, line for line -/
+theorem wide_opassign_same_code (zp : String → Bool) (s : String) (op : BOp) (a : WA) :
+    rgenText zp (.opasgW s op a) = rgenText zp (.binW s op (.wvar s) a) := by
+  simp [rgenText, rtemplate, wordered, WA.isConst]
+
+theorem wide_opassign_law (L : Layout) (σ : SrcSt) (s : String) (op : BOp) (a : WA) :
+    rspec L σ (.opasgW s op a) = rspec L σ (.binW s op (.wvar s) a) := by
+  simp [rspec, wordered, WA.isConst]
+
+/-- a commutative operator with a compound operand: `a ∘ (e)` and `(e) ∘ a` are the same code -/
+theorem linear_comm_same_code (zp : String → Bool) (v : LV) (x : RA) (op : BOp) (e : LExpr) (h : op ≠ .sub) :
+    rgenText zp (.lin v (.right x op e)) = rgenText zp (.lin v (.left e op x)) := by
+  have : (op == BOp.sub) = false := by cases op <;> simp_all
+  simp [rgenText, rtemplate, linCode, this]
+
+theorem linear_comm_law (L : Layout) (σ : SrcSt) (v : LV) (x : RA) (op : BOp) (e : LExpr) (h : op ≠ .sub) :
+    rspec L σ (.lin v (.right x op e)) = rspec L σ (.lin v (.left e op x)) := by
+  have : (op == BOp.sub) = false := by cases op <;> simp_all
+  simp [rspec, linVal, this]
+
+/-- `s++` and `s += 1` on a 16-bit variable (different code: INC / BNE / INC against CLC / ADC #1 / ADC #0) leave the
+    same 16-bit value in `s` -/
+theorem wide_incr_law (L : Layout) (σ : SrcSt) (s : String) (f : Nat) (hsep : L s + 1 ≠ L s) :
+    ∃ σ₁, sem L (f + 3) σ (incW s) = some (.norm, σ₁) ∧
+      wordAt L σ₁.mem s = wordAt L (rspec L σ (.opasgW s .add (.wconst 1))).mem s := by
+  obtain ⟨σ₁, h1, h2, _⟩ := incW_word L σ s f
+  have := (wide_stmt_word L σ (.opasgW s .add (.wconst 1)) s _ rfl
+    (by intro x hx t ht; simp [wOperands] at hx; rcases hx with rfl | rfl
+        · cases ht; exact hsep
+        · cases ht)).1
+  exact ⟨σ₁, h1, by rw [h2, this]; simp [wval, BOp.apply16]⟩
+
+example : rgenText (fun _ => true) (.opasgW "s" .add (.wconst 1)) ≠ (gen none {} (incW "s")).1.filterMap (fun l => match l with | .ins m (some a) => some (m, GenFlat.text a) | .ins m none => some (m, "") | _ => none) := by decide
+
+/-! ### stage 10: rewrites of expression trees (different code — different spills —, the same result) -/
+
+/-- two trees the generator accepts, with the same plain value: the same final state outside the compiler's cells -/
+theorem tree_equal_value_law (L : Layout) (σ : SrcSt) (v : LV) (e1 e2 : GExpr) (h1 : e1.ok = true) (h2 : e2.ok = true)
+    (hn1 : NoTmp L (v.names ++ gexprNames e1)) (hn2 : NoTmp L (v.names ++ gexprNames e2))
+    (hv : pureE L σ e1 = pureE L σ e2) :
+    EqOff L (rspec L σ (.expr v e1)) (rspec L σ (.expr v e2)) := by
+  have a := tree_value_is_plain L σ v e1 h1 hn1
+  have b := tree_value_is_plain L σ v e2 h2 hn2
+  rw [hv] at a
+  simpa [rspec] using a.trans b.symm
+
+theorem tree_comm_law (L : Layout) (σ : SrcSt) (v : LV) (l r : GExpr) (op : BOp) (hop : op ≠ .sub)
+    (h1 : (GExpr.bin l op r).ok = true) (h2 : (GExpr.bin r op l).ok = true)
+    (hn : NoTmp L (v.names ++ (gexprNames l ++ gexprNames r))) :
+    EqOff L (rspec L σ (.expr v (.bin l op r))) (rspec L σ (.expr v (.bin r op l))) := by
+  refine tree_equal_value_law L σ v _ _ h1 h2 (by simpa [gexprNames] using hn) ?_ ?_
+  · refine ⟨hn.1, fun a ha => hn.2 a ?_⟩
+    simp only [gexprNames, List.mem_append] at ha ⊢
+    rcases ha with ha | ha | ha
+    · exact Or.inl ha
+    · exact Or.inr (Or.inr ha)
+    · exact Or.inr (Or.inl ha)
+  · simp only [pureE]; exact apply_comm_ne_sub op _ _ hop
+
+theorem apply_assoc_ne_sub (op : BOp) (a b c : Byte) (h : op ≠ .sub) : op.apply (op.apply a b) c = op.apply a (op.apply b c) := by
+  cases op <;> simp_all [BOp.apply, BitVec.add_assoc, BitVec.and_assoc, BitVec.or_assoc, BitVec.xor_assoc]
+
+theorem tree_assoc_law (L : Layout) (σ : SrcSt) (v : LV) (x y z : GExpr) (op : BOp) (hop : op ≠ .sub)
+    (h1 : (GExpr.bin (.bin x op y) op z).ok = true) (h2 : (GExpr.bin x op (.bin y op z)).ok = true)
+    (hn : NoTmp L (v.names ++ (gexprNames x ++ gexprNames y ++ gexprNames z))) :
+    EqOff L (rspec L σ (.expr v (.bin (.bin x op y) op z))) (rspec L σ (.expr v (.bin x op (.bin y op z)))) := by
+  refine tree_equal_value_law L σ v _ _ h1 h2 (by simpa [gexprNames] using hn) ?_ ?_
+  · refine ⟨hn.1, fun a ha => hn.2 a ?_⟩
+    simp only [gexprNames, List.mem_append] at ha ⊢
+    rcases ha with ha | ha | ha | ha
+    · exact Or.inl ha
+    · exact Or.inr (Or.inl (Or.inl ha))
+    · exact Or.inr (Or.inl (Or.inr ha))
+    · exact Or.inr (Or.inr ha)
+  · simp only [pureE]; exact apply_assoc_ne_sub op _ _ _ hop
+
+/-- the two spellings are different code (the hypotheses of `tree_comm_law` are met by trees that spill differently) -/
+example : rgenText (fun _ => true) (.expr (.var "v") (.bin (.bin (.atom (.of (.var "a"))) .add (.atom (.of (.var "b")))) .bxor
+      (.bin (.atom (.of (.var "c"))) .band (.atom (.of (.var "d")))))) ≠
+    rgenText (fun _ => true) (.expr (.var "v") (.bin (.bin (.atom (.of (.var "c"))) .band (.atom (.of (.var "d")))) .bxor
+      (.bin (.atom (.of (.var "a"))) .add (.atom (.of (.var "b")))))) := by decide
+example : (GExpr.bin (.bin (.atom (.of (.var "a"))) .add (.atom (.of (.var "b")))) .bxor
+      (.bin (.atom (.of (.var "c"))) .band (.atom (.of (.var "d"))))).ok = true ∧
+    (GExpr.bin (.bin (.atom (.of (.var "c"))) .band (.atom (.of (.var "d")))) .bxor
+      (.bin (.atom (.of (.var "a"))) .add (.atom (.of (.var "b"))))).ok = true := by decide
 
 /-! non-vacuity: the spellings are different code, and both are in the fragment -/
 def demoC : Cond := .cmp .lt (.of (.var "a")) (.of (.var "b"))
